@@ -154,7 +154,9 @@ def _what_part(construct: str) -> str:
 # running a property check
 # ---------------------------------------------------------------------------
 
-def finish(rep: Report, level_text: str) -> int:
+def finish(rep: Report, level_text: str, partial: "str | None" = None) -> int:
+    """partial: the run stopped early with this analysis error after the findings in rep had been established - they are reported
+    (a violation found by one rule is not unfound because a later rule lost its anchor); nothing is said about what was not reached"""
     known = known_for(rep.prop)
     new = [f for f in rep.findings if f.key not in known]
     hit = [f for f in rep.findings if f.key in known]
@@ -165,7 +167,7 @@ def finish(rep: Report, level_text: str) -> int:
         seen_keys.add(f.key)
         e = known[f.key]
         print(f"KNOWN-FINDING: property={rep.prop} {f.rule} {f.construct} :: {e.get('what', f.message)}")
-    stale = [k for k in known if k not in {f.key for f in rep.findings}]
+    stale = [k for k in known if k not in {f.key for f in rep.findings}] if partial is None else []
     # A listed finding whose construct has *moved*: it is no longer observed where it was listed and the same rule reports the same
     # construct (same expression / role text, same context) at exactly one place where nothing was listed - the code around the defect was
     # restructured (a macro extracted, a helper introduced, a template split), the defect is the listed one.  Matched one to one: a second
@@ -227,7 +229,7 @@ def finish(rep: Report, level_text: str) -> int:
             replay_paths.append(rp)
             print(f"  {f.rule} {f.construct}\n    at {f.where}\n    {f.message}")
             print(f"VIOLATION property={rep.prop} replay={rp}")
-    write_evidence(rep, level_text, len(new), hit)
+    write_evidence(rep, level_text, len(new), hit, error=partial)
     n_ob = len(rep.obligations)
     n_ok = sum(1 for o in rep.obligations if o.ok)
     print(f"[{rep.prop}] tier={rep.tier} obligations={n_ob} discharged={n_ok} known={len(seen_keys)} "
@@ -299,6 +301,12 @@ def run_property(prop: str, fn: Callable[[Report, Any], str], tier: str, root: P
         text = fn(rep, ctx)
         return finish(rep, text)
     except AnalysisError as e:
+        known = known_for(prop)
+        if any(f.key not in known for f in rep.findings):
+            # violations established before the analysis lost its footing stand; the rest of the property was not decided
+            print(f"note: the analysis of {prop} stopped early (ANALYSIS-ERROR {e}); the violations found before that are reported, "
+                  "what was not reached is not decided")
+            return finish(rep, "analysis stopped early", partial=str(e))
         print(f"ANALYSIS-ERROR property={prop} {e}")
         write_evidence(rep, "analysis error", 0, [], error=str(e))
         return 2
